@@ -291,12 +291,12 @@ def _short(spends):
 
 def check(ctx):
     r = ctx.fork("cases")
-    n = ctx.budget(1500, 40000)
+    n = ctx.budget(4000, 40000)
     cases = [(list(s), float(sl), "fixed") for s, sl in FIXED] + [gen_case(r) for _ in range(n)]
     impl = []
     lines = []
     rr = ctx.fork("direct")
-    n_direct = ctx.budget(700, 12000)          # the 60-digit reference is the expensive part
+    n_direct = ctx.budget(1500, 12000)         # the 60-digit reference is the expensive part
     for i, (spends, slack, style) in enumerate(cases):
         te, td = impl_total(spends, slack)
         impl.append((te, td))
